@@ -590,6 +590,8 @@ func randomBuild(r *lib.Rng, big bool) Item {
 		if r.Chance(1, 2) {
 			it.Bops = []BOp{ts(), nd()}
 		}
+	} else if r.Chance(3, 5) {
+		it.Bops = historize(r, it.Bops)
 	}
 	if r.Chance(1, 3) {
 		it.Reads = []int64{int64(r.Range(-3, 20))}
@@ -598,6 +600,52 @@ func randomBuild(r *lib.Rng, big bool) Item {
 		it.Pret = [][2]int{{r.Intn(1 << 20), r.Pick([]int{1, 2, 3, 0, -2, 7})}}
 	}
 	return it
+}
+
+// historize interleaves encodings, filler packets and changes of the caller's time-stamp object with the
+// constructor calls: the same object is encoded several times during its life
+func historize(r *lib.Rng, ops []BOp) []BOp {
+	var out []BOp
+	hasTS := false
+	extra := func() {
+		if r.Chance(2, 5) {
+			out = append(out, BOp{O: "enc"})
+		}
+		if r.Chance(1, 3) {
+			out = append(out, BOp{O: "fil", Seq: int64(uint32(r.U64())), N: r.Pick([]int{1, 2, 3, 4, 4, 8, 0, -2})})
+			if r.Chance(1, 3) {
+				out = append(out, BOp{O: "fil", Seq: int64(r.Intn(1000)), N: r.Pick([]int{1, 2, 4})})
+			}
+		}
+		if hasTS && r.Chance(2, 5) {
+			t := r.U64()
+			if r.Chance(1, 5) {
+				t = ^uint64(0)
+			}
+			out = append(out, BOp{O: "mts", T: t})
+			if r.Chance(1, 2) {
+				out = append(out, BOp{O: "enc"})
+			}
+		}
+		if !hasTS && r.Chance(1, 12) {
+			out = append(out, BOp{O: "mts", T: r.U64()})
+		}
+	}
+	for _, op := range ops {
+		out = append(out, op)
+		switch op.O {
+		case "ts":
+			hasTS = true
+		case "rts":
+			hasTS = false
+		}
+		extra()
+	}
+	if r.Chance(1, 2) {
+		out = append(out, BOp{O: "enc"})
+		extra()
+	}
+	return out
 }
 
 // ---------------------------------------------------------------- corpus
@@ -676,6 +724,21 @@ func corpus() [][]Item {
 		b(BOp{O: "nd", W: 4, Vals: v16(8), Dims: []int{4}}, BOp{O: "ts", T: ^uint64(0), Rate: 1e9}),
 		b(BOp{O: "nd", W: 8, Vals: []int64{-1 << 63, 1<<63 - 1, 0, -1}, Dims: []int{1}}),
 		b(BOp{O: "nd", W: 0, Vals: nil, Dims: []int{1}}),
+	)
+	// histories: every encoding must decode to the object's current fields
+	cs = append(cs,
+		// send a packet, then make fillers from it and send them; advance the caller's time stamp; new data
+		b(BOp{O: "nd", W: 4, Vals: v16(8), Dims: []int{4}}, BOp{O: "ts", T: 4294972296, Rate: 125e6},
+			BOp{O: "fil", Seq: 555, N: 4}, BOp{O: "enc"}, BOp{O: "fil", Seq: 98, N: 4}, BOp{O: "fil", Seq: 0xfffffff0, N: 4},
+			BOp{O: "mts", T: 4294973296}, BOp{O: "enc"}, BOp{O: "nd", W: 4, Vals: v16(4), Dims: []int{4}},
+			BOp{O: "ts", T: 7, Rate: 125e6}, BOp{O: "enc"}),
+		// encode twice in a row; filler of a packet without data; time stamp changed after a reset
+		b(BOp{O: "enc"}, BOp{O: "enc"}, BOp{O: "fil", Seq: 3, N: 1}, BOp{O: "ts", T: 9, Rate: 1e9}, BOp{O: "enc"},
+			BOp{O: "rts"}, BOp{O: "mts", T: 10}, BOp{O: "enc"}, BOp{O: "nd", W: 2, Vals: v16(6), Dims: []int{3}},
+			BOp{O: "enc"}, BOp{O: "clr"}, BOp{O: "enc"}, BOp{O: "fil", Seq: 4, N: 0}),
+		// a second SetTimestamp after encoding, then the new object advanced
+		b(BOp{O: "ts", T: 1, Rate: 256e6}, BOp{O: "nd", W: 8, Vals: v16(4), Dims: []int{2}}, BOp{O: "enc"},
+			BOp{O: "ts", T: 2, Rate: 256e6}, BOp{O: "enc"}, BOp{O: "mts", T: 3}, BOp{O: "fil", Seq: 77, N: 2}, BOp{O: "fil", Seq: 78, N: 0}),
 	)
 	many := make([]int, 108)
 	for i := range many {
